@@ -26,6 +26,8 @@ import (
 
 type checker struct {
 	r *mon.Run
+	// a burst script failed to progress twice: further burst cases would each cost two watchdogs
+	stuckReported bool
 }
 
 // ipTrack follows, per IP, how the expected answer evolved, to classify cases and failures.
@@ -630,7 +632,7 @@ func (k *checker) selfTest(t *testing.T) {
 func TestCheck(t *testing.T) {
 	r := mon.Start(t, "C13")
 	defer r.Finish()
-	r.Rule("cases: (a) direct-drive histories of 12-25 add/update/delete events over 5 pod identities (3 namespaces) and 3 IPs applied to the real provider's indexer then its invalidation handler (deletes sometimes as tombstones): phases Pending/Running/Succeeded/Failed, deletion timestamp, hostNetwork, hostIP==podIP, IP set/unset/changed/re-used by another pod only after the previous holder stopped holding it, label/annotation add/remove/rename/change; 12 label x 12 annotation regexes (or disabled) with/without the named group, with other groups, with groups matching empty text; after every step 1-2 Peek lookups of most IPs (plus unknown/host IPs). (b) the same through a fake clientset and the provider's own informer (Provider.Run), each API call followed by waiting for the k8s.on* hook; lookups via Peek and via IpSink/InfoSource. (c) forced interleaving: a lookup parked at k8s.beforeMemoStore while the holder is updated/deleted/finishes/moves/is replaced, then released, then later lookups. (d) three goroutines looking up while events are applied, judged against the window of states between call and return. (e) consumers: histories as in (a)/(b) in which most lookups are followed by a counter/gauge/timer/set/event from that IP, untagged (nil or empty tag slice) or with 1-3 own tags, travelling through the real CloudHandler -> TagHandler built by NewTagHandlerFromViper from random filter configuration text (0-2 filters with drop-tags/match-tags/match-metrics/drop-host/drop-metric patterns drawn from the tags the reference expects in that history, 0-2 static tags) -> a sink keying by FormatTagsKey; the IP is then looked up again and must still answer for the reference. (f) configuration: the provider is built by k8s.NewProviderFromViper from random TOML/YAML text (annotation-tag-regex and label-tag-regex absent / empty / custom, watch-cluster absent/true/false x node-name absent/empty/node1/node2, resync-period, kube-api-qps/burst, user-agent, kubeconfig-path and optionally kubeconfig-context) against a scripted HTTP API server that serves list+watch of pods with resource versions and honours the fieldSelector; 0-5 events happen before start-up (initial list), 6-15 in total, pods live on 3 nodes; lookups via Peek and IpSink are compared with the reference parameterised by the documented meaning of the keys. Non-trivial: a history in which an IP is re-used by a second pod, or a holder leaves while its answer is memoised (a/b); every forced case; concurrent cases whose answer for an IP changes at least twice. every consumed item whose IP has a holder (e), distinct by (engine, untagged/tagged, item kind, number of filters, static tags, size of the answer); every configuration case (f), distinct by (format, regex key classes, watch-cluster/node-name classes, list used, holder on another node seen, holder hidden by the node filter seen). Distinct by (engine, per-IP pattern of gain/edit/loss-with-reason/re-use events, first 8), by (engine, variant) for forced, by (engine, number of changes, overlap seen) for concurrent.")
+	r.Rule("cases: (a) direct-drive histories of 12-25 add/update/delete events over 5 pod identities (3 namespaces) and 3 IPs applied to the real provider's indexer then its invalidation handler (deletes sometimes as tombstones): phases Pending/Running/Succeeded/Failed, deletion timestamp, hostNetwork, hostIP==podIP, IP set/unset/changed/re-used by another pod only after the previous holder stopped holding it, label/annotation add/remove/rename/change; 12 label x 12 annotation regexes (or disabled) with/without the named group, with other groups, with groups matching empty text; after every step 1-2 Peek lookups of most IPs (plus unknown/host IPs). (b) the same through a fake clientset and the provider's own informer (Provider.Run), each API call followed by waiting for the k8s.on* hook; lookups via Peek and via IpSink/InfoSource. (c) forced interleaving: a lookup parked at k8s.beforeMemoStore while the holder is updated/deleted/finishes/moves/is replaced, then released, then later lookups. (d) three goroutines looking up while events are applied, judged against the window of states between call and return. (e) consumers: histories as in (a)/(b) in which most lookups are followed by a counter/gauge/timer/set/event from that IP, untagged (nil or empty tag slice) or with 1-3 own tags, travelling through the real CloudHandler -> TagHandler built by NewTagHandlerFromViper from random filter configuration text (0-2 filters with drop-tags/match-tags/match-metrics/drop-host/drop-metric patterns drawn from the tags the reference expects in that history, 0-2 static tags) -> a sink keying by FormatTagsKey; the IP is then looked up again and must still answer for the reference. (f) configuration: the provider is built by k8s.NewProviderFromViper from random TOML/YAML text (annotation-tag-regex and label-tag-regex absent / empty / custom, watch-cluster absent/true/false x node-name absent/empty/node1/node2, resync-period, kube-api-qps/burst, user-agent, kubeconfig-path and optionally kubeconfig-context) against a scripted HTTP API server that serves list+watch of pods with resource versions and honours the fieldSelector; 0-5 events happen before start-up (initial list), 6-15 in total, pods live on 3 nodes; lookups via Peek and IpSink are compared with the reference parameterised by the documented meaning of the keys. (g) back-pressure: on the informer and configuration engines a sequential script pushes bursts of 2-20 lookups (repeated and distinct, held and unheld IPs) into IpSink() while InfoSource() is not read (released after the burst, sometimes keeping up to 3 answers queued across the next burst), or read once per 2-4 submissions, with pod events between and inside bursts; every lookup must be answered exactly once for its own IP with the reference answer of a state inside its window (from its submission to the next interaction with Run), no answer for an IP nobody asked for, no surplus answer to a final sentinel lookup; a step that does not complete is re-run once and then reported. Non-trivial: a history in which an IP is re-used by a second pod, or a holder leaves while its answer is memoised (a/b); every forced case; concurrent cases whose answer for an IP changes at least twice. every consumed item whose IP has a holder (e), distinct by (engine, untagged/tagged, item kind, number of filters, static tags, size of the answer); burst cases with at least 3 answers queued at once (g), distinct by (engine, pattern, queue depth class, events); every configuration case (f), distinct by (format, regex key classes, watch-cluster/node-name classes, list used, holder on another node seen, holder hidden by the node filter seen). Distinct by (engine, per-IP pattern of gain/edit/loss-with-reason/re-use events, first 8), by (engine, variant) for forced, by (engine, number of changes, overlap seen) for concurrent.")
 	r.Assume("Go regexp (FindStringSubmatchIndex/SubexpIndex) as the definition of 'matches' and of the text of group 'tag' (validated against hand-derived expectations at start-up); client-go's store/informer and the fake clientset deliver exactly one handler call per API call; the scripted API server's field-selector semantics (fields.ParseSelector over the pod field labels the real server supports); CLOUDPROVIDERS.md and the parameter comments in k8s.go as the meaning of the [k8s] keys")
 	k := &checker{r: r}
 	k.selfTest(t)
@@ -645,6 +647,10 @@ func TestCheck(t *testing.T) {
 			n = 50
 		}
 		for i := 0; i < n; i++ {
+			if h.Mode == "burst" {
+				k.burstCase(h, i)
+				continue
+			}
 			if h.Engine == "config" {
 				k.guarded(h, func() { k.runConfig(h, i) })
 				continue
@@ -697,6 +703,14 @@ func TestCheck(t *testing.T) {
 	for i := 0; i < nConfig && r.Violations() < 32; i++ {
 		h := genConfig(rng)
 		k.guarded(h, func() { k.runConfig(h, i) })
+	}
+	nBurst := r.N(240, 8000)
+	for i := 0; i < nBurst && r.Violations() < 36 && !k.stuckReported; i++ {
+		engine := "informer"
+		if i%4 == 3 {
+			engine = "config"
+		}
+		k.burstCase(genBurst(rng, engine), i)
 	}
 	for i := 0; i < nConc && r.Violations() < 24; i++ {
 		engine := "direct"
